@@ -42,9 +42,10 @@ MODELLED = ('pm/sop.py ParametricMap.__init__ argument checks, _get_pixel_data_t
             'rescale and LINEAR window branches of __call__ (pixels.apply_voi_window); pm/content.py '
             'RealWorldValueMapping.apply; Image.get_volume of single-channel maps (slice order, unique '
             'positions); sc/sop.py SCImage validation + frame.encode_frame checks, '
-            'native and bit-packed encoding')
+            'native and bit-packed encoding; the _pixel_array cache of one image object across a sequence of '
+            'accesses (pixel_array, get_stored_frame(s), get_frame(s): cache-aware frame lookup, model `session`)')
 STRATA = ['pm_store', 'pm_refuse', 'pm_read', 'pm_read_rw', 'pm_read_flags', 'pm_float_read', 'pm_volume',
-          'rwvm_ctor', 'rwvm_apply', 'sc', 'sc_refuse']
+          'rwvm_ctor', 'rwvm_apply', 'sc', 'sc_refuse', 'pm_session']
 NOT_EXECUTED = ['JPEG 2000 (no openjpeg codec installed): only the size/bit-depth refusals are run',
                 'JPEG baseline (lossy) secondary captures: only acceptance/refusal, not pixel equality',
                 'workers: ParametricMap / SCImage constructors of this tree have no workers parameter '
@@ -67,6 +68,12 @@ RULE = ('every array input in several memory layouts (C, Fortran, transposed vie
         'any shape incl. empty, values at and beyond the mapped range, float arrays for LUTs; pm_volume: shuffled '
         'regularly spaced planes, with/without real-world values, duplicate positions; sc: bool/uint8/uint16/12-bit mono and '
         'RGB/YBR_FULL x transfer syntax; sc_refuse: product of dtype x bits x shape x PI x syntax. '
+        'pm_session: maps of 1..18 frames opened eagerly / lazily / in memory (Image.from_dataset with and without '
+        'copy), 2..7 accesses on the SAME object with every result observed (pixel_array, get_stored_frame(s), '
+        'get_frame(s) with flags), request lists of every shape (ascending / descending runs, permuted runs, '
+        'permuted runs starting at the minimum and ending at the maximum, rotations, adjacent swaps, repetitions, '
+        'gaps, interleavings, reversed, single, with an invalid number, empty) before and after the whole array '
+        'was decoded; every shape x every way of opening warm every run; request shapes also feed pm_read(_rw/_flags); '
         'non-trivial = more than one distinct word (or a refusal); distinct by case hash')
 EXHAUSTIVE = {'quick': False, 'thorough': False}
 
@@ -345,7 +352,129 @@ def _frame_requests(rng, nf):
         fs[rng.randrange(len(fs))] = rng.choice([lo - 1, lo + nf, -1, lo + nf + 3])
     if rng.random() < 0.3:
         fs = [lo, lo + nf - 1]
+    if rng.random() < 0.3:
+        fs = _request(rng, nf, lo)
     return api, as_index, fs
+
+
+REQ_SHAPES = ['run_asc', 'run_desc', 'perm_run', 'perm_minmax', 'rot', 'swap', 'dup', 'gap', 'interleave',
+              'random', 'single', 'all_rev', 'invalid']
+
+
+def _request(rng, nf, lo, shape=None):
+    """a list of frame numbers (lo = 1) / indices (lo = 0) of a given shape; the order is the point"""
+    shape = shape or rng.choice(REQ_SHAPES)
+    a = rng.randint(0, max(0, nf - 2))
+    b = rng.randint(min(nf - 1, a + 1), nf - 1)
+    if rng.random() < 0.4:
+        a, b = 0, nf - 1
+    run = list(range(a, b + 1))
+    idx = list(run)
+    if shape == 'run_desc':
+        idx = run[::-1]
+    elif shape == 'perm_run':
+        rng.shuffle(idx)
+    elif shape == 'perm_minmax':      # first = minimum, last = maximum, anything but ascending between
+        mid = run[1:-1]
+        for _ in range(8):
+            rng.shuffle(mid)
+            if mid != sorted(mid):
+                break
+        idx = run[:1] + mid + (run[-1:] if len(run) > 1 else [])
+    elif shape == 'rot':
+        r = rng.randrange(len(run))
+        idx = run[r:] + run[:r]
+    elif shape == 'swap':
+        if len(idx) >= 2:
+            i = rng.randrange(len(idx) - 1) if len(idx) < 4 or rng.random() < 0.3 else rng.randint(1, len(idx) - 3)
+            idx[i], idx[i + 1] = idx[i + 1], idx[i]
+    elif shape == 'dup':
+        idx.insert(rng.randint(0, len(idx)), rng.choice(run))
+        if rng.random() < 0.3:
+            idx = idx[:1] * 2 + idx[1:]
+    elif shape == 'gap':
+        idx = list(range(a, nf, 2))
+        if rng.random() < 0.4:
+            idx = idx[::-1]
+    elif shape == 'interleave':
+        idx = run[::2] + run[1::2]
+        if rng.random() < 0.5 and len(run) > 2:      # keep minimum first and maximum last
+            idx = run[:1] + run[2:-1:2] + run[1:-1:2] + run[-1:]
+    elif shape == 'random':
+        idx = [rng.randrange(nf) for _ in range(rng.randint(1, nf + 1))]
+    elif shape == 'single':
+        idx = [rng.randrange(nf)]
+    elif shape == 'all_rev':
+        idx = list(range(nf))[::-1]
+    elif shape == 'invalid':
+        rng.shuffle(idx)
+        idx.insert(rng.randint(0, len(idx)), rng.choice([-1, nf, nf + 2, -nf - 1]) )
+    return [lo + i for i in idx]
+
+
+SESSION_FLAGS = [[True, None, False], [None, None, False], [False, None, False], [False, False, False],
+                 [False, None, None], [False, True, True], [None, None, None], [True, True, None]]
+OPEN_MODES = ['eager', 'lazy', 'mem', 'mem_nocopy']
+
+
+def _session_op(rng, nf, what=None, shape=None):
+    what = what or rng.choice(['pixel_array', 'stored_frame', 'stored_frames', 'stored_frames', 'stored_frames',
+                               'frame', 'frames', 'frames'])
+    ai = rng.random() < 0.4
+    lo = 0 if ai else 1
+    if what == 'pixel_array':
+        return {'op': what}
+    if what in ('stored_frame', 'frame'):
+        f = rng.randint(lo, lo + nf - 1) if rng.random() < 0.85 else rng.choice([lo - 1, lo + nf, -1])
+        o = {'op': what, 'ai': ai, 'f': f}
+    else:
+        r = rng.random()
+        fs = None if r < 0.12 and shape is None else [] if r < 0.17 and shape is None else _request(rng, nf, lo, shape)
+        o = {'op': what, 'ai': ai, 'frames': fs}
+    if what in ('frame', 'frames'):
+        o['flags'] = list(rng.choice(SESSION_FLAGS[:6] if rng.random() < 0.9 else SESSION_FLAGS))
+    return o
+
+
+def _session_case(rng, tier, shape=None, mode=None, warm=None, min_frames=1):
+    """one image object, several accesses in a row, every result observed"""
+    c = _read_case(rng, tier, True)
+    while c['ts'] == 'JLS':
+        c = _read_case(rng, tier, True)
+    sh = c['shape']
+    N = rng.choice([1, 2, 2, 3, 4, 4, 5, 6])
+    M = sh[3] if len(sh) == 4 else 1
+    while N * M < min_frames:
+        N += 1
+    if len(sh) == 2:
+        sh = [N] + sh
+        c['maps'] = {'shape': 'flat', 'items': c['maps']['items']}
+    sh = [N] + sh[1:]
+    hi = max(_flatten(c['arr']))
+    c['shape'] = sh
+    c['arr'] = _nest(_words(rng, c['dtype'], _shape_size(sh), hi=max(hi, 1)), sh)
+    c['src'] = {'type': 'series', 'n': N, 'pos': _positions(rng, N, rng.choice(['regular', 'perm']))}
+    c['pp'] = None
+    for key in ('api', 'as_index', 'frames', 'history', 'lazy'):
+        c.pop(key, None)
+    nf = N * M
+    c['kind'] = 'pm_session'
+    c['open'] = mode or rng.choice(OPEN_MODES)
+    c['ww'] = rng.choice([2.0, 3.0, 5.0, 1.5, 0.5, 17.0, 9.0])
+    c['wc'] = rng.choice([1.0, 0.5, 8.0, 20.25, 3.0])
+    warm = rng.random() < 0.7 if warm is None else warm
+    ops = [_session_op(rng, nf) for _ in range(rng.randint(0, 2))]
+    if warm:
+        ops.append({'op': 'pixel_array'})
+    if shape is not None:
+        # the same request through every batch accessor (and the single-frame ones for its first number)
+        o = _session_op(rng, nf, 'stored_frames', shape)
+        ops.append(o)
+        ops.append(dict(_session_op(rng, nf, 'frames'), ai=o['ai'], frames=list(o['frames'])))
+        ops.append({'op': 'stored_frame', 'ai': o['ai'], 'f': o['frames'][len(o['frames']) // 2]})
+    ops += [_session_op(rng, nf) for _ in range(rng.randint(1, 3))]
+    c['ops'] = ops
+    return c
 
 
 def _read_case(rng, tier, rw):
@@ -462,6 +591,7 @@ def _volume_case(rng, tier):
     c['lazy'] = rng.random() < 0.5
     c['rw'] = rng.random() < 0.3
     c['dz8'] = abs(dz)
+    c['history'] = _history(rng) if rng.random() < 0.6 else []
     if n > 1 and rng.random() < 0.15:
         # two planes at the same position: frames are not identified by their positions
         a, b = rng.sample(range(n), 2)
@@ -640,6 +770,13 @@ def gen_cases(rng, tier):
         cases.append(_float_read_case(rng, tier))
     for _ in range(15 * k):
         cases.append(_volume_case(rng, tier))
+    # one object, many accesses: every request shape x every way of opening, array cached; cold and free ones
+    for shape in REQ_SHAPES:
+        for mode in OPEN_MODES:
+            cases.append(_session_case(rng, tier, shape=shape, mode=mode, warm=True, min_frames=4))
+        cases.append(_session_case(rng, tier, shape=shape, warm=False, min_frames=4))
+    for _ in range(45 * k):
+        cases.append(_session_case(rng, tier, shape=rng.choice([None] + REQ_SHAPES)))
     for _ in range(30 * k):
         cases.append(_rwvm_case(rng))
     for _ in range(70 * k):
@@ -687,7 +824,8 @@ def gen_cases(rng, tier):
         cases.append(c)
     for c in cases:
         # big-endian 2-byte integers are refused by the constructor: nothing to read back
-        if (c['kind'] in ('pm_read', 'pm_read_rw', 'pm_read_flags', 'pm_volume') and c.get('layout') == 'byteswap'
+        if (c['kind'] in ('pm_read', 'pm_read_rw', 'pm_read_flags', 'pm_volume', 'pm_session')
+                and c.get('layout') == 'byteswap'
                 and c['dtype'] == 'uint16'):
             c['layout'] = 'neg'
     return cases
@@ -1073,6 +1211,33 @@ def _run_impl(c):
                 return [_fr(x) for x in im.get_frames(list(fs), as_indices=ai, **kw)]
             return [_fr(x) for x in im.get_frames(as_indices=ai, **kw)]
         return catch(rdw)
+    if k == 'pm_session':
+        pm = _pm_ctor(c)
+        nf, R, C = int(pm.NumberOfFrames), int(pm.Rows), int(pm.Columns)
+        if c['open'] == 'mem':
+            im = hd.Image.from_dataset(pm)
+        elif c['open'] == 'mem_nocopy':
+            im = hd.Image.from_dataset(pm, copy=False)
+        else:
+            im = _image(pm, c['open'] == 'lazy')
+
+        def one(o):
+            what = o['op']
+            if what == 'pixel_array':
+                return [_to_words(x) for x in np.asarray(im.pixel_array).reshape(nf, R, C)]
+            if what == 'stored_frame':
+                return _to_words(im.get_stored_frame(o['f'], as_index=o['ai']))
+            if what == 'stored_frames':
+                fs = None if o['frames'] is None else list(o['frames'])
+                return [_to_words(x) for x in im.get_stored_frames(fs, as_indices=o['ai'])]
+            rwf, mdf, voif = o['flags']
+            kw = dict(apply_real_world_transform=rwf, apply_modality_transform=mdf,
+                      apply_voi_transform=voif, real_world_value_map_selector=_sel(c))
+            if what == 'frame':
+                return _fr(im.get_frame(o['f'], as_index=o['ai'], **kw))
+            fs = None if o['frames'] is None else list(o['frames'])
+            return [_fr(x) for x in im.get_frames(fs, as_indices=o['ai'], **kw)]
+        return [catch(one, o) for o in c['ops']]
     if k == 'rwvm_ctor':
         from pydicom.sr.codedict import codes
 
@@ -1218,6 +1383,30 @@ def coq_term(c):
         fl = ' '.join('None' if f is None else f'(Some {_b(f)})' for f in c['flags'])
         return (f'(run_pm_read_flags {_b(batch)} {w}%nat {_zl4(c)} {N} {R} {C} {M} {_maps_term(c["maps"])} '
                 f'{_sel_term(c["sel"])} {fl} {qlit(F(c["wc"]))} {qlit(F(c["ww"]))} {opt} {_b(c["as_index"])})')
+    if k == 'pm_session':
+        N, R, C, M = _dims(c)
+        w = WIDTH[c['dtype']]
+
+        def opt(fs):
+            return 'None' if fs is None else f'(Some {zl(fs)})'
+
+        def fl(o):
+            return ' '.join('None' if f is None else f'(Some {_b(f)})' for f in o['flags'])
+
+        def op(o):
+            what = o['op']
+            if what == 'pixel_array':
+                return 'OPixelArray'
+            if what == 'stored_frame':
+                return f"(OStoredFrame {zlit(o['f'])} {_b(o['ai'])})"
+            if what == 'stored_frames':
+                return f"(OStoredFrames {opt(o['frames'])} {_b(o['ai'])})"
+            if what == 'frame':
+                return f"(OFrame {fl(o)} {zlit(o['f'])} {_b(o['ai'])})"
+            return f"(OFrames {fl(o)} {opt(o['frames'])} {_b(o['ai'])})"
+        return (f'(run_pm_session {w}%nat {_zl4(c)} {N} {R} {C} {M} {_maps_term(c["maps"])} '
+                f'{_sel_term(c["sel"])} {qlit(F(c["wc"]))} {qlit(F(c["ww"]))} [' +
+                '; '.join(op(o) for o in c['ops']) + '])')
     if k == 'pm_volume':
         N, R, C, M = _dims(c)
         if M != 1:
@@ -1339,17 +1528,7 @@ def oracle(c, out):
         fs = c['frames'] if c['frames'] is not None else (list(range(nf)) if ai else list(range(1, nf + 1)))
         if c['api'] == 'pixel_array':
             fs, ai = list(range(1, nf + 1)), False
-        idx = [f if ai else f - 1 for f in fs]
-        if any(i < 0 or i >= nf for i in idx):
-            return None if out == Err('IndexError') else f'invalid frame number gave {out}'
-        if not fs:
-            return None if isinstance(out, Err) else 'an empty request returned frames'
-        if isinstance(out, Err):
-            return f'reading stored frames {fs} failed: {out}'
-        for f, i in zip(out, idx):
-            if f != _to_words(exp[i]):
-                return f'stored frame index {i} differs from plane {i // M} mapping {i % M}'
-        return None if len(out) == len(idx) else 'wrong number of frames'
+        return _oracle_stored(exp, M, fs, ai, out)
     if k == 'pm_read_rw':
         exp, M = _expected_frames(c)
         nf = len(exp)
@@ -1391,49 +1570,29 @@ def oracle(c, out):
         nf = len(exp)
         ai = c['as_index']
         fs = c['frames'] if c['frames'] is not None else (list(range(nf)) if ai else list(range(1, nf + 1)))
-        idx = [f if ai else f - 1 for f in fs]
-        mode = _flags_expect(*c['flags'])
-        if idx and not 0 <= idx[0] < nf:
-            return None if out == Err('IndexError') else f'invalid frame number gave {str(out)[:80]}'
-        if mode == 'error':
-            return None if isinstance(out, Err) else f'contradictory transform flags {c["flags"]} accepted'
-        chans = [c['maps']['items']] if c['maps']['shape'] == 'flat' else c['maps']['items']
-        want = []
-        for i in (idx if idx else [0]):
-            if i < 0 or i >= nf:
-                want.append('index')
-                break
-            if mode == 'rw':
-                ms = chans[i % M] if M > 1 else chans[0]
-                s = c['sel']
-                if isinstance(s, str):
-                    hit = [m for m in ms if m['label'] == s]
-                    m = hit[0] if hit else None
-                else:
-                    m = ms[s] if -len(ms) <= s < len(ms) else None
-                if m is None:
-                    want.append('selector')
-                    break
-                r = _ref_mapping(m, exp[i])
-            elif mode == 'stored':
-                r = [F(int(v)) for v in exp[i].reshape(-1)]
+        return _oracle_flags(c, exp, M, c['flags'], fs, ai, out)
+    if k == 'pm_session':
+        exp, M = _expected_frames(c)
+        nf = len(exp)
+        if isinstance(out, Err) or len(out) != len(c['ops']):
+            return f'session did not run: {str(out)[:80]}'
+        for t, (o, r) in enumerate(zip(c['ops'], out)):
+            what = o['op']
+            ai = o.get('ai', False)
+            if what == 'pixel_array':
+                msg = _oracle_stored(exp, M, list(range(1, nf + 1)), False, r)
+            elif what == 'stored_frame':
+                msg = _oracle_stored(exp, M, [o['f']], ai, r if isinstance(r, Err) else [r])
+            elif what == 'frame':
+                msg = _oracle_flags(c, exp, M, o['flags'], [o['f']], ai, r if isinstance(r, Err) else [r])
             else:
-                wc, ww = F(c['wc']), F(c['ww'])
-                r = [min(F(1), max(F(0), (int(v) - (wc - ww / 2)) / (ww - 1))) for v in exp[i].reshape(-1)]
-            want.append(r)
-            if r == 'range':
-                break
-        last = want[-1]
-        if last in ('index', 'selector'):
-            return None if out == Err('IndexError') else f'expected IndexError ({last}), got {str(out)[:80]}'
-        if last == 'range':
-            return None if out == Err('ValueError') else f'value outside mapped range gave {str(out)[:80]}'
-        if not idx:
-            return None if isinstance(out, Err) else 'an empty request returned frames'
-        if isinstance(out, Err):
-            return f'frames {fs} with flags {c["flags"]} ({mode}) not returned: {out}'
-        if out != want:
-            return f'values differ for frames {fs} with flags {c["flags"]} ({mode})'
+                fs = o['frames'] if o['frames'] is not None else (list(range(nf)) if ai else list(range(1, nf + 1)))
+                msg = (_oracle_stored(exp, M, fs, ai, r) if what == 'stored_frames'
+                       else _oracle_flags(c, exp, M, o['flags'], fs, ai, r))
+            if msg is not None:
+                before = [p['op'] for p in c['ops'][:t]]
+                return (f'access {t + 1} ({what}, frames {o.get("frames", o.get("f"))}, as_index {ai}) on a '
+                        f'{c["open"]} image after {before}: {msg}')
         return None
     if k == 'rwvm_apply':
         m, vals = c['map'], c['vals']
@@ -1508,6 +1667,73 @@ def oracle(c, out):
     return f'unknown kind {k}'
 
 
+def _oracle_stored(exp, M, fs, ai, out):
+    """stored frames requested as fs (in that order): position p of the answer is frame fs[p]"""
+    nf = len(exp)
+    idx = [f if ai else f - 1 for f in fs]
+    if any(i < 0 or i >= nf for i in idx):
+        return None if out == Err('IndexError') else f'invalid frame number gave {str(out)[:80]}'
+    if not fs:
+        return None if isinstance(out, Err) else 'an empty request returned frames'
+    if isinstance(out, Err):
+        return f'reading stored frames {fs} failed: {out}'
+    for p, (f, i) in enumerate(zip(out, idx)):
+        if f != _to_words(exp[i]):
+            return (f'position {p} of the answer (requested frame index {i}) differs from plane {i // M} '
+                    f'mapping {i % M}')
+    return None if len(out) == len(idx) else 'wrong number of frames'
+
+
+def _oracle_flags(c, exp, M, flags, fs, ai, out):
+    """get_frame(s) with the three transform flags on the frames fs (in that order)"""
+    nf = len(exp)
+    idx = [f if ai else f - 1 for f in fs]
+    mode = _flags_expect(*flags)
+    if idx and not 0 <= idx[0] < nf:
+        return None if out == Err('IndexError') else f'invalid frame number gave {str(out)[:80]}'
+    if mode == 'error':
+        return None if isinstance(out, Err) else f'contradictory transform flags {flags} accepted'
+    chans = [c['maps']['items']] if c['maps']['shape'] == 'flat' else c['maps']['items']
+    want = []
+    for i in (idx if idx else [0]):
+        if i < 0 or i >= nf:
+            want.append('index')
+            break
+        if mode == 'rw':
+            ms = chans[i % M] if M > 1 else chans[0]
+            s = c['sel']
+            if isinstance(s, str):
+                hit = [m for m in ms if m['label'] == s]
+                m = hit[0] if hit else None
+            else:
+                m = ms[s] if -len(ms) <= s < len(ms) else None
+            if m is None:
+                want.append('selector')
+                break
+            r = _ref_mapping(m, exp[i])
+        elif mode == 'stored':
+            r = [F(int(v)) for v in exp[i].reshape(-1)]
+        else:
+            wc, ww = F(c['wc']), F(c['ww'])
+            r = [min(F(1), max(F(0), (int(v) - (wc - ww / 2)) / (ww - 1))) for v in exp[i].reshape(-1)]
+        want.append(r)
+        if r == 'range':
+            break
+    last = want[-1]
+    if last in ('index', 'selector'):
+        return None if out == Err('IndexError') else f'expected IndexError ({last}), got {str(out)[:80]}'
+    if last == 'range':
+        return None if out == Err('ValueError') else f'value outside mapped range gave {str(out)[:80]}'
+    if not idx:
+        return None if isinstance(out, Err) else 'an empty request returned frames'
+    if isinstance(out, Err):
+        return f'frames {fs} with flags {flags} ({mode}) not returned: {out}'
+    if out != want:
+        bad = [p for p, (a, b) in enumerate(zip(out, want)) if a != b]
+        return f'values differ for frames {fs} with flags {flags} ({mode}) at positions {bad or "(length)"}'
+    return None
+
+
 def _flags_expect(rw, md, voi):
     """documented meaning of apply_real_world_transform / apply_modality_transform / apply_voi_transform
     (True = required, False = off, None = if available) on an image that has real world value mappings,
@@ -1567,6 +1793,24 @@ def nontrivial(c, out):
 
 def shrink(c):
     if 'arr' not in c or c['kind'] in ('sc', 'sc_refuse'):
+        return
+    if c['kind'] == 'pm_session':
+        for t in range(len(c['ops'])):
+            if len(c['ops']) > 1:
+                yield dict(c, ops=c['ops'][:t] + c['ops'][t + 1:])
+        for t, o in enumerate(c['ops']):
+            fs = o.get('frames')
+            if fs and len(fs) > 4 and len(set(fs)) == len(fs):
+                # keep the order pattern of a few of the requests, on consecutive numbers
+                import itertools
+                for size in (2, 3, 4):
+                    for pos in itertools.islice(itertools.combinations(range(len(fs)), size), 60):
+                        sub = [fs[q] for q in pos]
+                        pat = [min(fs) + sorted(sub).index(v) for v in sub]
+                        yield dict(c, ops=c['ops'][:t] + [dict(o, frames=pat)] + c['ops'][t + 1:])
+            if fs and len(fs) > 1:
+                for d in range(len(fs)):
+                    yield dict(c, ops=c['ops'][:t] + [dict(o, frames=fs[:d] + fs[d + 1:])] + c['ops'][t + 1:])
         return
     sh = c['shape']
     if len(sh) >= 3 and sh[0] > 1 and c['src']['type'] in ('series',) and c.get('frames') is None:
